@@ -204,22 +204,26 @@ function nodeAt(path) {
   return nd;
 }
 
+var MODE = "none", PLAN = "none";      // set by the first step of a tour (op "plan")
 function obs() {
-  if (MODE === "parse") return {text: enc(TEXT), n: N};
-  return {shape: ROOT === null ? "none" : shapeOf(ROOT.real, true), n: N};
+  if (MODE === "parse") return {plan: PLAN, text: enc(TEXT), n: N};
+  if (MODE === "str") return {plan: PLAN, shape: ROOT === null ? "none" : shapeOf(ROOT.real, true), n: N};
+  return {plan: PLAN, n: N};
 }
-// MODE ("parse" | "str") is set by the prelude json_parse.js / json_str.js
 // BigInt.prototype.toJSON (kind "big7"): 7n serialises as "seven", every other BigInt is handed on unchanged
 Object.defineProperty(BigInt.prototype, "toJSON", {value: function () { "use strict"; return this === BigInt(7) ? "seven" : this; },
                                                    writable: true, enumerable: false, configurable: true});
 function reset() {
+  MODE = "none"; PLAN = "none";
   TEXT = ""; N = 0; ROOT = null; REG = new Map(); SHARED = {s: 1};
   return obs();
 }
 function step(l) {
   var res;
   switch (l.op) {
+  case "plan": MODE = l.mode; PLAN = l.name; res = "ok"; break;
   case "app": TEXT += dec(l.p); N++; res = parseRes(TEXT); break;
+  case "try": res = parseRes(TEXT + dec(l.p)); break;       // a piece after which no continuation can be accepted: probed, not kept
   case "edit": res = parseRes(edited(l.k, l.i, l.c)); break;
   case "root":
     var rv = mk(l.kind);
